@@ -47,6 +47,10 @@ def run(prog, chk):
     chk.rule("C13.e", "TBL: Socket::send/recv report would-block as -1 with error 0; write, read and the drain arm treat (-1, error 0) as retry, (-1, error) and 0 as closed", floor=5)
     chk.rule("C13.f", "AST: *postponed is _sendBuffer.size() on the buffered paths and 0 on the fully-sent and failed paths", floor=3)
     chk.rule("C13.g", "ORD: onWrite only on the backlog-empty edge, after the interest set was recomputed; the client is not used after a callback", floor=2)
+    chk.rule("C13.h", "ORD: when the interest set of a socket shrinks (suspend), Poll::set prunes the removed flags from the events already "
+                      "buffered from the current epoll_wait round, computing them from the registered flags before these are overwritten", floor=1)
+    from . import c14
+    c14.poll_set_prunes(prog, chk, "C13.h")
     RF, WF = flag(None, prog, "readFlag"), flag(None, prog, "writeFlag")
     w = sfn(prog, P + "ClientImpl::write")
     run_ = sfn(prog, P + "run")
